@@ -37,7 +37,7 @@ var traceKinds = map[string]string{
 	"flush": "fl", "flush.eof": "fe", "sent": "st", "sync.end": "sn", "sema.rel": "rl",
 	"src.close": "sc", "rd.end": "re", "c.wait": "cw", "c.close": "cc",
 	"w.start": "ws", "w.recv": "wr", "line.m": "lm", "line.i": "li", "line.u": "lu",
-	"w.send": "wd", "w.sent": "wt", "w.exit": "wx", "rc.close": "rc",
+	"w.count": "wc", "w.send": "wd", "w.sent": "wt", "w.exit": "wx", "rc.close": "rc",
 	"c.recv": "cr", "c.done": "cd",
 	// aggregation loop
 	"t.done": "td", "t.tick": "tt", "t.locked": "tl", "t.rendered": "tr",
@@ -55,6 +55,11 @@ type traceCfg struct {
 	delay                           int // consumer sleeps every `delay` batches (0 = never)
 	script                          string
 	inputs                          [][]byte
+	// C05 (aggregation loop) only
+	renderMs int // the render callback sleeps this long
+	sampleUs int // every Sample takes this long …
+	spin     int // … 0: sleeping, 1: spinning without yielding the processor
+	startMs  int // the loop is started this long after the extractor (workers fill readChan and park)
 }
 
 func (c traceCfg) cfgString() string {
@@ -62,7 +67,8 @@ func (c traceCfg) cfgString() string {
 	if c.script != "." {
 		sc = strings.NewReplacer(",", "+", ":", "-").Replace(c.script)
 	}
-	return fmt.Sprintf("%s.%d.%d.%d.%d.%d.%d.%d.%d.%s", c.mode, c.batch, c.workers, c.readers, c.buffer, c.flushMs, c.missing+1, c.procs, c.delay, sc)
+	return fmt.Sprintf("%s.%d.%d.%d.%d.%d.%d.%d.%d.%s.%d.%d.%d.%d", c.mode, c.batch, c.workers, c.readers, c.buffer, c.flushMs, c.missing+1, c.procs, c.delay, sc,
+		c.renderMs, c.sampleUs, c.spin, c.startMs)
 }
 
 func parseTraceCfg(s string, ins string) traceCfg {
@@ -73,6 +79,9 @@ func parseTraceCfg(s string, ins string) traceCfg {
 	c.script = "."
 	if len(f) > 9 && f[9] != "0" {
 		c.script = strings.NewReplacer("+", ",", "-", ":").Replace(f[9])
+	}
+	if len(f) > 13 {
+		c.renderMs, c.sampleUs, c.spin, c.startMs = atoi(f[10]), atoi(f[11]), atoi(f[12]), atoi(f[13])
 	}
 	if ins != "." {
 		for _, h := range strings.Split(ins, "_") {
